@@ -488,6 +488,20 @@ impl<const M: usize> Sim<M> {
             17 => Some(usize::MAX),
             _ => Some(map_size(op.b, op.c)),
         };
+        let lim = match self.opts.limit_mode {
+            1 => {
+                // the limit feature is never touched
+                self.step_events.clear();
+                self.push_trace(OUT_OK, 0, 0);
+                return;
+            }
+            2 => {
+                // set and immediately remove: must be indistinguishable from never setting it
+                let _ = self.call(|b| b.set_allocation_limit(lim));
+                None
+            }
+            _ => lim,
+        };
         let _ = self.call(|b| b.set_allocation_limit(lim));
         self.limit = lim;
         self.st(St::LimitSetOps);
